@@ -551,6 +551,7 @@ func (lsm *LSM) Rotate() {
 
 // rotateLocked swaps the active memtable; caller must hold lsm.lock.
 func (lsm *LSM) rotateLocked() *memTable {
+	utils.VerifYield("lsm.rotate")
 	old := lsm.memTable
 	lsm.immutables = append(lsm.immutables, old)
 	lsm.memTable = lsm.NewMemtable()
